@@ -21,6 +21,8 @@ def canon(case):
 
 
 def select_cases(tier, seed, families=("flat", "blocks"), quick_random=30, thorough_random=500):
+    if common.replay_cases():
+        return common.replay_cases()
     rng = random.Random(seed)
     cases = []
     n = quick_random if tier == "quick" else thorough_random
@@ -211,7 +213,7 @@ def run_prop(prop, tier, seed, ops_fn, judge, families=("flat", "blocks"), rule=
                 post(res, out, cov)
     except tlc.TLCError as e:
         err = str(e)[:2000]
-    if not err and cov.evaluations > 0 and len(cov.nontrivial) < 2:
+    if not err and cov.evaluations > 0 and len(cov.nontrivial) < 2 and not common.replay_cases():
         err = "vacuity guard: fewer than 2 non-trivial cases"
     return common.finish(prop, tier, seed, level, out, cov.as_dict(rule), t0,
                          assumptions=["TLC 1.8 evaluates Design.tla/Blocks.tla faithfully",
@@ -274,7 +276,26 @@ def c02(tier, seed):
         if o["count"] > 0:
             cov.sample(sample_of(r, 1))
 
-    return run_prop("C02", tier, seed, ops, judge,
+    def post(res, out, cov):
+        # self-check of the specification: with pruning switched OFF, every accepted behaviour of the generator has only
+        # viable prefixes (invariant PruneSound) - otherwise MCEnum could silently skip valid sequences
+        import os
+        small = [r for r in res if r.built and r.nb[0] and not r.nb[2] and r.nb[1] <= 4
+                 and sum(1 for f in r.case["factors"] if f["kind"] == "b") <= 2][:12 if tier == "quick" else 80]
+        if not small:
+            return
+        path = tlc.write_cases([export.tlc_case(r.case, enum=True) for r in small], "prune")
+        try:
+            pr = tlc.run_with_norm("MCEnum.tla", "MCPrune.cfg", path, env={"VERIF_PRUNE": "0"}, timeout=1500, tags=())
+        finally:
+            os.unlink(path)
+        cov.stats["states"] = cov.stats.get("states", 0) + pr.distinct
+        cov.stats["transitions"] = cov.stats.get("transitions", 0) + pr.states
+        cov.notes["prune_sound_cases"] = cov.notes.get("prune_sound_cases", 0) + len(small)
+        if pr.violation:
+            raise tlc.TLCError("specification self-check failed: invariant %s violated with pruning off" % pr.violation)
+
+    return run_prop("C02", tier, seed, ops, judge, post=post,
                     rule="IterateSATGen asked for 1500 sequences; returned set is validated trace by trace (soundness) and "
                          "compared with the exhaustive enumeration of Design behaviours by MCEnum (completeness) when fewer "
                          "than 1500 came back; non-trivial = non-empty exhausted set that went through MCEnum")
@@ -534,6 +555,7 @@ def c23(tier, seed):
         cases += gen.weighted_cases(rng, 40 if tier == "quick" else 500)
         cases += gen_blocks.weighted_blocks()
         cases += common.witness_cases("C23")
+        cases = common.replay_cases() or cases
 
         def ops(c):
             return [{"op": "synth", "strategy": SAT, "n": pipeline.CAP, "exhaust": True},
@@ -583,6 +605,7 @@ def c29(tier, seed):
         cases = gen.systematic_flat() + gen.systematic_corner() + gen_blocks.systematic_blocks()
         cases += gen.random_flat(rng, 30 if tier == "quick" else 400)
         cases += common.witness_cases("C29")
+        cases = common.replay_cases() or cases
 
         def ops(c):
             return [{"op": "synth", "strategy": "SMGen", "n": 2, "timeout": 25}, {"op": "synth", "strategy": "SMGen", "n": 1, "timeout": 25}]
